@@ -142,6 +142,10 @@ def _work_batch(args):
                     res["unsupported"].append((name, w, str(u)))
                 except X.SpecError as u:
                     res["unsupported"].append((name, w, "xmlsem: " + str(u)))
+                except SyntaxError as u:
+                    # the emitted module is not valid Python: nothing to verify; a violation of C02 / C18 for a valid spec
+                    res["unsupported"].append((name, w, "emitted module does not compile: " + str(u)[:160]))
+                    res.setdefault("noncompiling", []).append((name, str(u)[:200]))
                 except (z3.Z3Exception, KeyError, AttributeError, TypeError, IndexError, ValueError, AssertionError) as u:
                     # the VC generator itself tripped over this class: not proved, decided by the bounded stand-in
                     res["unsupported"].append((name, w, "verifier error: " + repr(u)[:200]))
